@@ -83,17 +83,17 @@ def run(ctx, rep, tier):
     if n_sites < 21:
         raise AnalysisError(f"C01.b: only {n_sites} child conversion sites (floor 21)")
     tc = ast.unparse(model.func("TryExceptNode.convert"))
-    rep.check("body_error_handlers = current_error_handlers.copy()" in tc and "body_error_handlers.update({x: self.handler_node for x in self.handles})" in tc and
-              "self.body.convert(body_error_handlers)" in tc, "C01.b", "TryExceptNode.convert", "try body: copy of the caller's map extended by the handled reasons", "try body handler map changed")
-    rep.check("sub_dfa.append_after(handler_dfa, sub_states=[self.handler_node], chain_actions=self.incoming_handler_actions)" in tc, "C01.b", "TryExceptNode.convert",
+    rep.check(model.has("TryExceptNode.convert", "body_error_handlers = current_error_handlers.copy()") and model.has("TryExceptNode.convert", "body_error_handlers.update({x: self.handler_node for x in self.handles})") and
+              model.has("TryExceptNode.convert", "self.body.convert(body_error_handlers)"), "C01.b", "TryExceptNode.convert", "try body: copy of the caller's map extended by the handled reasons", "try body handler map changed")
+    rep.check(model.has("TryExceptNode.convert", "sub_dfa.append_after(handler_dfa, sub_states=[self.handler_node], chain_actions=self.incoming_handler_actions)"), "C01.b", "TryExceptNode.convert",
               "catch block starts at the handler node", "handler attachment changed")
     cp = ast.unparse(model.func("DfaCompileCtx.compile"))
-    rep.check("self.dfa = self.ast.convert(defaultdict(lambda: self.generic_fail_state))" in cp and "self.dfa.add(self.generic_fail_state)" in cp, "C01.b", "DfaCompileCtx.compile",
+    rep.check(model.has("DfaCompileCtx.compile", "self.dfa = self.ast.convert(defaultdict(lambda: self.generic_fail_state))") and model.has("DfaCompileCtx.compile", "self.dfa.add(self.generic_fail_state)"), "C01.b", "DfaCompileCtx.compile",
               "root handler map: every reason -> the generic fail state", "root handler map changed: an unhandled mismatch no longer produces FAIL")
     pc = ast.unparse(model.func("ParseCtx.__init__"))
-    rep.check("self.exception_handlers = defaultdict(lambda: self.generic_fail_state)" in pc, "C01.b", "ParseCtx.__init__", "parse-time root map -> the same generic fail state", "parse-time root handlers changed")
+    rep.check(model.has("ParseCtx.__init__", "self.exception_handlers = defaultdict(lambda: self.generic_fail_state)"), "C01.b", "ParseCtx.__init__", "parse-time root map -> the same generic fail state", "parse-time root handlers changed")
     dc = ast.unparse(model.func("DfaCompileCtx.__init__"))
-    rep.check("self.generic_fail_state = parse_ctx.generic_fail_state" in dc, "C01.b", "DfaCompileCtx.__init__", "one generic fail state shared by parse and compile stages", "fail state plumbing changed")
+    rep.check(model.has("DfaCompileCtx.__init__", "self.generic_fail_state = parse_ctx.generic_fail_state"), "C01.b", "DfaCompileCtx.__init__", "one generic fail state shared by parse and compile stages", "fail state plumbing changed")
 
     # ------------------------------------------------------------------ C01.c parse-time scoping (shared with C04.c)
     rep.rule("C01.c", "parse time: handler map saved as a copy, extended for the try body only, restored before the catch block is parsed")
@@ -127,7 +127,7 @@ def run(ctx, rep, tier):
     n_d += 1
     rep.check(ok, "C01.d", "RegexMatch._create_dfa_state", "regex: fallthrough and error mark exactly when the target is the no-match path", f"regex transitions built as {chs}")
     rc = ast.unparse(model.func("RegexMatch.convert"))
-    rep.check("self._create_dfa_state(self.dfa_2.start_state, out_dfa, True, current_error_handlers[ErrorReasons.NO_MATCH])" in rc, "C01.d", "RegexMatch.convert",
+    rep.check(model.has("RegexMatch.convert", "self._create_dfa_state(self.dfa_2.start_state, out_dfa, True, current_error_handlers[ErrorReasons.NO_MATCH])"), "C01.d", "RegexMatch.convert",
               "regex no-match path = the caller's no-match handler", "regex else path changed")
     if n_d < 5:
         raise AnalysisError("C01.d: fewer than 5 no-match construction sites")
@@ -148,7 +148,7 @@ def run(ctx, rep, tier):
         declared = cst.value if isinstance(cst, ast.Constant) else None
         if cl == "ConditionalAction":
             src = ast.unparse(model.func("ConditionalAction.is_timing_strict"))
-            rep.check("return any((x.is_timing_strict() for x in itertools.chain(*self.sub_actions.values())))" in src and "potential in child.accesses()" in src, "C01.e",
+            rep.check(model.has("ConditionalAction.is_timing_strict", "return any((x.is_timing_strict() for x in itertools.chain(*self.sub_actions.values())))") and model.has("ConditionalAction.is_timing_strict", "potential in child.accesses()"), "C01.e",
                       "ConditionalAction.is_timing_strict", "strict if any sub-action is, or if a sub-action writes what its condition reads", "conditional-action strictness changed")
             continue
         if effect is not None:
@@ -156,7 +156,7 @@ def run(ctx, rep, tier):
                       f"{cl}'s template performs {effect} but is_timing_strict() (resolved in {o}) is not constant True: the scheduler may attach it to several transitions and run it twice")
         elif cl == "SetTo":
             src = ast.unparse(model.func("SetTo.is_timing_strict"))
-            rep.check("return any((self.into_storage in x.accesses() for x in self.value_expr.all_children()))" in src, "C01.e", "SetTo.is_timing_strict",
+            rep.check(model.has("SetTo.is_timing_strict", "return any((self.into_storage in x.accesses() for x in self.value_expr.all_children()))"), "C01.e", "SetTo.is_timing_strict",
                       "strict exactly when the value expression reads the assigned output", "self-referential assignment is no longer strict")
         else:
             rep.ok("C01.e", f"{cl}.is_timing_strict", f"{cl}: idempotent template, strictness {declared}", nontrivial=False)
@@ -201,7 +201,7 @@ def run(ctx, rep, tier):
     rep.check("parent_dfa.add(self.end_state)" in lsrc and "parent_dfa.mark_accepting(self.end_state)" in lsrc and "parent_dfa.append_after(self.next.convert(current_error_handlers))" in lsrc,
               "C01.f", "LoopNode.convert", "what follows the loop is attached at the end state", "loop continuation attachment changed")
     beq = ast.unparse(model.func("BreakAction.__eq__"))
-    rep.check("return o.refers_to == self.refers_to" in beq, "C01.f", "BreakAction.__eq__", "break actions compare by the loop they leave", "break identity changed")
+    rep.check(model.has("BreakAction.__eq__", "return o.refers_to == self.refers_to"), "C01.f", "BreakAction.__eq__", "break actions compare by the loop they leave", "break identity changed")
     pb = ast.unparse(ps)
     rep.check("self.break_handlers[loop_name] = loop_node.get_break_handler" in pb and "self.innermost_break_handler = loop_node.get_break_handler" in pb and
               "self.innermost_break_handler = previous_break" in pb, "C01.f", "ParseCtx._parse_stmt", "break targets: named loop / innermost loop, restored after the body", "break target scoping changed")
@@ -230,21 +230,21 @@ def run(ctx, rep, tier):
     # ------------------------------------------------------------------ C01.g action placement in literal matches
     rep.rule("C01.g", "literal matches: start actions on the first transition (and its mismatch path), per-character actions on every transition, finish actions on the last")
     ma = ast.unparse(model.func("Match.attach"))
-    rep.check("if action.get_mode() == ActionMode.AT_FINISH:\n        self.finish_actions.append(action)" in ma and "elif action.get_mode() == ActionMode.EACH_CHARACTER:" in ma
-              and "self.char_actions.append(action)" in ma and "self.start_actions.append(action)" in ma, "C01.g", "Match.attach", "actions sorted by mode, in attachment order", "Match.attach changed")
+    rep.check(model.has("Match.attach", "if action.get_mode() == ActionMode.AT_FINISH:\n        self.finish_actions.append(action)") and model.has("Match.attach", "elif action.get_mode() == ActionMode.EACH_CHARACTER:")
+              and model.has("Match.attach", "self.char_actions.append(action)") and model.has("Match.attach", "self.start_actions.append(action)"), "C01.g", "Match.attach", "actions sorted by mode, in attachment order", "Match.attach changed")
     for q, sym in (("DirectMatch.convert", "[character]"), ("CaseDirectMatch.convert", "self._create_casei_from(character)")):
         f = model.func(q)
         src = ast.unparse(f)
         chs = [c for c in chains_in(f) if c.root_is_ctor and c.to == "next_state"]
         ok = len(chs) == 1 and chs[0].on_values == sym and chs[0].attach == [(["*start_action_holder", "*self.char_actions"], "False")] and not chs[0].truthy("fallthrough")
         rep.check(ok, "C01.g", q, "consuming transition: start actions (first only) then per-character actions", f"literal transition built as {chs}")
-        rep.check("start_action_holder = self.start_actions if j == 0 else []" in src, "C01.g", q, "start actions only on the first character", "start action placement changed")
+        rep.check(model.has(q, "start_action_holder = self.start_actions if j == 0 else []"), "C01.g", q, "start actions only on the first character", "start action placement changed")
         rep.check(re.search(r"if j == len\(self\.match_contents\) - 1:\s+t\.attach\(\*self\.finish_actions\)\s+sm\.mark_accepting\(next_state\)", src) is not None, "C01.g", q,
                   "finish actions and acceptance on the last character", "finish action placement changed")
-        rep.check("state = next_state" in src and "sm.add(next_state)" in src and "state.transition(t)" in src, "C01.g", q, "states chained in literal order", "literal state chaining changed")
+        rep.check(model.has(q, "state = next_state") and model.has(q, "sm.add(next_state)") and model.has(q, "state.transition(t)"), "C01.g", q, "states chained in literal order", "literal state chaining changed")
     cm = ast.unparse(model.func("ConcatMatch.convert"))
-    rep.check("self.sub_matches[0].start_actions.extend(self.start_actions)" in cm and "self.sub_matches[-1].finish_actions.extend(self.finish_actions)" in cm and
-              "for i in self.sub_matches[1:]:\n        sm.append_after(i.convert(current_error_handlers))" in cm, "C01.g", "ConcatMatch.convert",
+    rep.check(model.has("ConcatMatch.convert", "self.sub_matches[0].start_actions.extend(self.start_actions)") and model.has("ConcatMatch.convert", "self.sub_matches[-1].finish_actions.extend(self.finish_actions)") and
+              model.has("ConcatMatch.convert", "for i in self.sub_matches[1:]:\n        sm.append_after(i.convert(current_error_handlers))"), "C01.g", "ConcatMatch.convert",
               "concatenation: start actions to the first part, finish actions to the last, parts joined in order", "ConcatMatch.convert changed")
 
     # ------------------------------------------------------------------ C01.h sequencing
@@ -254,13 +254,13 @@ def run(ctx, rep, tier):
     rep.check("for stmt in reversed(stmts):" in ssrc and "node.set_next(next_node)" in ssrc and "end_node.set_next(next_node)" in ssrc and "next_node = node" in ssrc and "return next_node" in ssrc,
               "C01.h", "ParseCtx._parse_stmt_seq", "built back to front, each node linked to its successor", "statement sequencing changed")
     mc = ast.unparse(model.func("MatchNode.convert"))
-    rep.check("base_dfa = self.match.convert(current_error_handlers)" in mc and "base_dfa.append_after(self.next.convert(current_error_handlers))" in mc, "C01.h", "MatchNode.convert",
+    rep.check(model.has("MatchNode.convert", "base_dfa = self.match.convert(current_error_handlers)") and model.has("MatchNode.convert", "base_dfa.append_after(self.next.convert(current_error_handlers))"), "C01.h", "MatchNode.convert",
               "a match is followed by its continuation", "MatchNode.convert changed")
     an = ast.unparse(model.func("ActionNode.set_next"))
-    rep.check("new_actions, self.next = next_node.adopt_actions_from()" in an and "self.actions.extend(new_actions)" in an, "C01.h", "ActionNode.set_next",
+    rep.check(model.has("ActionNode.set_next", "new_actions, self.next = next_node.adopt_actions_from()") and model.has("ActionNode.set_next", "self.actions.extend(new_actions)"), "C01.h", "ActionNode.set_next",
               "adjacent actions are merged in program order (own first, then the following ones)", "action merging order changed")
     sn = ast.unparse(model.func("ActionSinkNode.set_next"))
-    rep.check("actions, new_next = next_node.adopt_actions_from()" in sn and "self._adopt_actions(actions)" in sn and "self._set_next(new_next)" in sn, "C01.h", "ActionSinkNode.set_next",
+    rep.check(model.has("ActionSinkNode.set_next", "actions, new_next = next_node.adopt_actions_from()") and model.has("ActionSinkNode.set_next", "self._adopt_actions(actions)") and model.has("ActionSinkNode.set_next", "self._set_next(new_next)"), "C01.h", "ActionSinkNode.set_next",
               "a node adopts the actions that directly follow it", "action adoption changed")
     ia = model.func("InterruptableActionNode.convert")
     isrc = ast.unparse(ia)
